@@ -48,6 +48,11 @@ def run(P, rep, tier):
     rep.attempt(r5_const_specialisation, P, rep, ctx)
     rep.attempt(r7_make_mandatory, P, rep, ctx)
     rep.attempt(r8_atomic_types_source, P, rep, ctx)
+    rep.attempt(r9_config_whitelist, P, rep, ctx)
+    # constants declared by a parent stay forced in every descendant (constant rules of C12.R4)
+    from . import c12 as _c12
+
+    rep.attempt(_c12.r4_constants, P, rep, ctx)
     rep.floor("C13.R1", 8)
     rep.floor("C13.R2", 2)
     rep.floor("C13.R3", 4)
@@ -493,6 +498,22 @@ def r5_const_specialisation(P, rep, ctx):
     need_ovr = f.refuses_when([[FD, f"{FD} is not None", f"{nm} in {mc}.__fields__"], [f"not {fi.params[1]}"], [f"not is_enum({FD}.type_)"], [f"not is_literal({FD}.type_)"]], src_edge=(L, "iter"), targets=[L, g.exit])
     rep.check(bool(need_ovr) and bool(val_raises), "C13.R5", af.qual,
               "overriding an ordinary inherited field with a constant needs override=True", af.loc(), construct="override required", message="add_const_fields silently replaces an ordinary inherited field")
+
+
+def r9_config_whitelist(P, rep, ctx):
+    """A schema class may override only the pydantic Config keys in ALLOWED_SCHEMA_CONFIG_FIELDS.  None of them may change how
+    the values of *inherited* fields are coerced, validated or dumped -- otherwise a child accepts or writes something its parent
+    does not read as the same value.  (`extra` and `allow_mutation` do not touch declared fields.)"""
+    from .c12 import PARSE_CONFIG
+
+    m = P.module("schema.core")
+    val = m.assigns.get("ALLOWED_SCHEMA_CONFIG_FIELDS")
+    if not isinstance(val, (ast.Set, ast.List, ast.Tuple)) or not all(isinstance(e, ast.Constant) and isinstance(e.value, str) for e in val.elts):
+        raise AnalysisError("C13.R9: ALLOWED_SCHEMA_CONFIG_FIELDS is not a literal set of names")
+    keys = {e.value for e in val.elts}
+    risky = sorted((keys & (set(PARSE_CONFIG) | {"json_encoders", "json_dumps", "json_loads", "fields", "alias_generator", "validate_all", "validate_assignment", "smart_union", "arbitrary_types_allowed", "orm_mode", "copy_on_model_validation"})) - {"extra"})
+    rep.check(not risky, "C13.R9", "schema.core", "schema classes cannot override value-mapping Config keys", m.relpath, construct=f"ALLOWED_SCHEMA_CONFIG_FIELDS = {sorted(keys)}",
+              message=f"ALLOWED_SCHEMA_CONFIG_FIELDS lets a schema class override {risky}: a child schema can change how inherited fields are parsed / serialised, so what it writes is no longer something its parent schema accepts as the same value")
 
 
 def r8_atomic_types_source(P, rep, ctx):
